@@ -54,6 +54,14 @@ def standins(tier, seed):
                      ops=['inv', 'div', 'normsq'],
                      variants=[dict(cse=True, graded=False), dict(cse=True, graded=False, symbolcls='sympy'), dict(cse=False, graded=False),
                                dict(cse=True, graded=False, wrapper='identity')]))
+    # operands written with named blades (alg.blades): graded mode builds the blade of a name by its own route (seeded change C13l: slot of the
+    # blade within its grade computed from the binary key, right only where canonical order is binary order)
+    bb = [dict(cse=True, graded=False), dict(cse=True, graded=True), dict(cse=False, graded=False), dict(cse=True, graded=False, symbolcls='sympy')]
+    cfgs.append(dict(p=4, random=3, blade_built=True, ops=['gp', 'add'], variants=bb))
+    cfgs.append(dict(name='2DPGA', random=3, blade_built=True, ops=['gp', 'add'], variants=bb))
+    if tier != 'quick':
+        cfgs += [dict(p=3, q=0, r=1, random=4, blade_built=True, ops=['gp', 'op'], variants=bb), dict(name='3DPGA', random=3, blade_built=True, ops=['gp', 'op'], variants=bb),
+                 dict(p=4, q=1, random=2, blade_built=True, ops=['add'], variants=bb)]
     names = [{'name': 'typeid', 'bound': 'generated function names pairwise distinct across all operators and all ordered key tuples (d<=2 exhaustive, d=3 up to length 3): with a wrapper set functions are called by name',
               'job': {'kind': 'typeid', 'module': 'standins.jobs2', 'configs': [dict(p=1), dict(p=2), dict(p=2, q=0, r=1, maxlen=2)]}}]
     return names + [{'name': f'options#{i}', 'bound': 'grade-block operand pairs per signature x the product (sampled in quick) of cse x graded x symbol class x wrapper; Fraction values; every operator compared with the default-options algebra',
